@@ -59,13 +59,13 @@ theorem store_sound_invariant (H : Bytes → Bytes) (es : List Store.Ev) (s' : S
     nodes of a tree) is visible as well. Rests on the order blobs → tree → result, which is the guard of `setBegin`
     and is checked against the real backend-operation traces by the correspondence run. -/
 theorem result_refs_present (H : Bytes → Bytes) (es : List Store.Ev) (s' : Store.State)
-    (hr : Store.run H Store.init es = some s') (k : Bytes) (refs : List Bytes)
-    (hk : s'.tgt k = some refs) :
-    ∀ r ∈ refs, ∃ b, s'.cas r = some b ∧ H b.content = r ∧
+    (hr : Store.run H Store.init es = some s') (k : Bytes) (res : Store.Blob)
+    (hk : s'.tgt k = some res) :
+    ∀ r ∈ res.refs, ∃ b, s'.cas r = some b ∧ H b.content = r ∧
       ∀ r' ∈ b.refs, ∃ b', s'.cas r' = some b' ∧ H b'.content = r' := by
   have hs := store_sound_invariant H es s' hr
   intro r hrm
-  have hv := hs.tgtClosed k refs hk r hrm
+  have hv := hs.tgtClosed k res hk r hrm
   simp only [Store.vis, Option.isSome_iff_exists] at hv
   obtain ⟨b, hb⟩ := hv
   refine ⟨b, hb, hs.addressed r b hb, ?_⟩
